@@ -148,7 +148,7 @@ def fit_cases(draw):
     scale = draw(st.sampled_from([0.3, 1.0, 1.0, 2.0]))
     X = [[scale * draw(models.signed_val()) for _ in range(width)] for _ in range(rows)]
     # every Config field may be non-default when fit starts; fit must hand back exactly this configuration
-    cfg = {"extra_validation": draw(st.sampled_from([False, False, True])),
+    cfg = {"extra_validation": draw(st.sampled_from([False, False, False, False, True])),
            "max_dt_sec": draw(st.sampled_from([0.1, 0.05, 0.5])),
            "innovation_filtering": draw(st.sampled_from([None, 2.0, 5.0, 7.5]))}
     return {"layer": "fit", "model": m, "X": X, "config": cfg}
